@@ -431,16 +431,6 @@ where
                     }
                 }
             }
-            92..=94 => {
-                let cands: Vec<u32> = ids
-                    .iter()
-                    .copied()
-                    .filter(|&x| matches!(sem.v(x), Some(v) if v == F::ZERO || v == F::ONE))
-                    .collect();
-                if !cands.is_empty() {
-                    pending.push(Call::ABool(*rng.pick(&cands)));
-                }
-            }
             92..=94 if rng.chance(1, 2) => {
                 // mirror: re-issue an earlier binary call with one operand replaced by an
                 // expression connected to it -- lowers to an identical op (de-duplication),
@@ -480,6 +470,16 @@ where
                         pending.push(c);
                         // tie the mirrored result to an equal-valued expression later on
                     }
+                }
+            }
+            92..=94 => {
+                let cands: Vec<u32> = ids
+                    .iter()
+                    .copied()
+                    .filter(|&x| matches!(sem.v(x), Some(v) if v == F::ZERO || v == F::ONE))
+                    .collect();
+                if !cands.is_empty() {
+                    pending.push(Call::ABool(*rng.pick(&cands)));
                 }
             }
             95..=96 => {
